@@ -28,7 +28,7 @@ LEVEL = "exploration"
 NAMES = ["i", "xv", "x_1", "a$b"]
 NEW_NAMES = ["zz", "q1", "a_much_longer_name", "w"]
 PATTERNS = ["spaced", "tight", "square", "ifstmt", "callargs", "semicolon", "continuation", "uppercase", "comment", "literal", "substring", "funcarg",
-            "dotted"]
+            "dotted", "continuation_amp"]
 
 
 def emit(f, ind, pat, n, e):
@@ -48,6 +48,9 @@ def emit(f, ind, pat, n, e):
     elif pat == "continuation":
         f.add(ind, U(n, e), " = ", U(n, e), " + &")
         f.add(ind, "    ", U(n, e))
+    elif pat == "continuation_amp":
+        f.add(ind, U(n, e), " = ", U(n, e), " + &")
+        f.add(ind, "  & ", U(n, e), "*2 + ", U(n, e))
     elif pat == "uppercase":
         f.add(ind, U(n.upper(), e), " = ", U(n, e), " - ", U(n.capitalize(), e))
     elif pat == "comment":
@@ -309,7 +312,7 @@ def jobs(maxlen):
 
 def main(ctx):
     maxlen = 2 if ctx.quick else 3
-    ctx.rule = (f"every sequence of <= {maxlen} distinct statement patterns from a 13-pattern alphabet x 5 scope shapes x 4 names "
+    ctx.rule = (f"every sequence of <= {maxlen} distinct statement patterns from a 14-pattern alphabet x 5 scope shapes x 4 names "
                 "(i, xv, x_1, a$b); for every entity and every occurrence: references, documentHighlight; rename from the first and "
                 "last occurrence with one of 4 new names, edits applied, fresh server, definition at every occurrence. "
                 "Non-trivial: all; distinct by (shape, name, patterns).")
